@@ -774,7 +774,13 @@ class AdapterLookupBase:
         for r in required:
             r = r()
             if r is not None:
-                r.unsubscribe(self)
+                try:
+                    r.unsubscribe(self)
+                except KeyError:
+                    # The bookkeeping of dependents is not atomic; another
+                    # thread's subscription or unsubscription won a race.
+                    # We are dropping every subscription anyway.
+                    pass
 
     # Extendors
     # ---------
